@@ -1,31 +1,36 @@
 import NetVerif.Driver.Util
 import NetVerif.Model.Edns0
-/-! Line-protocol driver for the EDNS(0) model (C38). Stateless. -/
+/-! Line-protocol driver for the EDNS(0) model (C38). State: the fields of the one ResourceHeader
+the case works on (`hdr` sets them, every `edns` is applied to the header left by the previous op). -/
 open NetVerif.Driver NetVerif.Model.Edns0
 
 def c38Bool (b : Bool) : String := if b then "1" else "0"
 
-def c38Step (_ : Unit) (line : String) : Unit × String :=
-  let out : String :=
+def c38Step (st : Hdr) (line : String) : Hdr × String :=
     match tokens line with
+    | ["hdr", typ, cls, ttl] =>
+      match parseNat typ, parseNat cls, parseNat ttl with
+      | some typ, some cls, some ttl =>
+        if typ < 65536 ∧ cls < 65536 ∧ ttl < 4294967296 then ({ typ := typ, cls := cls, ttl := ttl }, "ok")
+        else (st, "bad-op")
+      | _, _, _ => (st, "bad-op")
     | ["edns", len, ext, d] =>
       match parseNat len, parseNat ext, parseNat d with
       | some len, some ext, some d =>
         if ext < 65536 ∧ d < 2 ∧ len < 9223372036854775808 then
-          let h := setEDNS0 len ext (d == 1)
-          s!"ok {h.typ} {h.cls} {h.ttl} {extendedRCode h.ttl (ext % 16)} {c38Bool (dnssecAllowed h.ttl)}"
-        else "bad-op"
-      | _, _, _ => "bad-op"
+          let h := setEDNS0 st len ext (d == 1)
+          (h, s!"ok {h.typ} {h.cls} {h.ttl} {extendedRCode h.ttl (ext % 16)} {c38Bool (dnssecAllowed h.ttl)}")
+        else (st, "bad-op")
+      | _, _, _ => (st, "bad-op")
     | ["xr", ttl, r] =>
       match parseNat ttl, parseNat r with
       | some ttl, some r =>
-        if ttl < 4294967296 ∧ r < 65536 then s!"ok {extendedRCode ttl r}" else "bad-op"
-      | _, _ => "bad-op"
+        if ttl < 4294967296 ∧ r < 65536 then (st, s!"ok {extendedRCode ttl r}") else (st, "bad-op")
+      | _, _ => (st, "bad-op")
     | ["do", ttl] =>
       match parseNat ttl with
-      | some ttl => if ttl < 4294967296 then s!"ok {c38Bool (dnssecAllowed ttl)}" else "bad-op"
-      | none => "bad-op"
-    | _ => "bad-op"
-  ((), out)
+      | some ttl => if ttl < 4294967296 then (st, s!"ok {c38Bool (dnssecAllowed ttl)}") else (st, "bad-op")
+      | none => (st, "bad-op")
+    | _ => (st, "bad-op")
 
-def main : IO Unit := runLoop c38Step ()
+def main : IO Unit := runLoop c38Step { typ := 0, cls := 0, ttl := 0 }
